@@ -880,9 +880,9 @@ def run(ck) -> None:
             elif not any("call_onnx_api" in v for v in ck.violations):
                 ck.violation({"kind": "oracle-call_onnx_api", "case": d["case"], "damage": d["damage"],
                               "raised": d["raised"], "required": "model unchanged after call_onnx_api"}, tag="call_onnx_api")
-        else:
+        elif sum("infra" in v for v in ck.violations) < 2:
             ck.violation({"kind": "oracle-infra", "term": d["term"], "c0": d["c0"], "observed": d["obs"],
-                          "required": d["failure"]})
+                          "required": d["failure"]}, tag="infra-" + common.digest(d["term"]))
     replay_known(ck)
     report(ck, records)
     if ck.broken_items and not ck.violations:
